@@ -43,6 +43,10 @@ var (
 	ms                  = float64(time.Millisecond) / float64(time.Second)
 )
 
+// errTimerTypeMismatch is returned when a name is already registered as a
+// summary and is requested as a histogram, or vice versa.
+var errTimerTypeMismatch = errors.New("metric previously registered with a different timer or histogram type")
+
 // DefaultHistogramBuckets is the default histogram buckets used when
 // creating a new Histogram in the prometheus registry.
 // See: https://godoc.org/github.com/prometheus/client_golang/prometheus#HistogramOpts
@@ -470,6 +474,9 @@ func (r *reporter) summaryVec(
 	defer r.Unlock()
 
 	if s, ok := r.timers[id]; ok {
+		if s.summary == nil {
+			return nil, errTimerTypeMismatch
+		}
 		return s.summary, nil
 	}
 
@@ -502,6 +509,9 @@ func (r *reporter) histogramVec(
 	defer r.Unlock()
 
 	if h, ok := r.timers[id]; ok {
+		if h.histogram == nil {
+			return nil, errTimerTypeMismatch
+		}
 		return h.histogram, nil
 	}
 
